@@ -292,6 +292,10 @@ class Driver:
             TR.emit("shutdown", reason=str(exc.args[0]) if exc.args else "")
             return str(exc.args[0]) if exc.args else "stop"
         TR.emit("loop_end", sync=instrument.sync_proj(schd), db=self.db_readback())
+        if getattr(self, "pending_remove", None):
+            # remove_task_from_flows queues its UPDATEs: they are in the database after this iteration's flush
+            TR.emit("remove_flushed", dbhist=self.db_history(self.pending_remove))
+            self.pending_remove = None
         return None
 
     def db_readback(self):
@@ -350,8 +354,32 @@ class Driver:
             ret = await commands.run_cmd(commands.COMMANDS[name](self.schd, **kw))
         finally:
             TR.ctx.pop()
+        if name == "remove_tasks":
+            self.pending_remove = list(kw.get("tasks") or [])
         TR.emit("cmd_done", name=name, sync=instrument.sync_proj(self.schd))
         return ret
+
+    def db_history(self, ids):
+        """Flow sets of the task_states / task_outputs rows of the given 'point/name' ids, as the
+        scheduler's own connection sees them now (remove writes them directly, not through the queue)."""
+        out = {}
+        try:
+            con = self.schd.workflow_db_mgr.pri_dao.connect()
+        except Exception:
+            return out
+        for tk in ids:
+            try:
+                p_, n_ = tk.split("/")
+                int(p_)
+            except ValueError:
+                continue
+            rows = []
+            for table in ("task_states", "task_outputs"):
+                for (f,) in con.execute(f"SELECT flow_nums FROM {table} WHERE cycle = ? AND name = ?", (p_, n_)):
+                    fl = _flows(f)
+                    rows.append(fl if isinstance(fl, list) else [])
+            out[f"{n_}.{p_}"] = rows
+        return out
 
     async def stop_cmd(self, mode):
         from cylc.flow import commands
@@ -558,12 +586,13 @@ async def teardown(drv):
         TR.enabled = True
 
 def execute(flow_text, outcome, seed, home, *, policy=None, run_opts=None, runner=run_to_end, hooks=None, name="w",
-            plan=None):
+            plan=None, point_index=None):
     """Synchronous entry point: returns (RunResult, events)."""
     logging.disable(logging.CRITICAL)
     TR.events = []
     TR.ctx = []
     TR.parents = []
+    TR.point_index = point_index
     TR.enabled = True
     drv = Driver(flow_text, home, outcome, seed, policy=policy, run_opts=run_opts, name=name)
     async def main():
